@@ -40,12 +40,25 @@ class C07(Case):
             for i, o in enumerate(items):
                 log.append(i)
                 yield o
+        ys = [Other(a=1, name="y0")]
         with symbolic_mode():
             if sp.get("spelling") == "typed":
                 x = Item(From(gen()))
             else:
                 x = let(Item, domain=gen())
-            q = an(entity(x, S.build(cond, {"x": x})))
+            lead = sp.get("lead")
+            if lead == "true":          # a constant switch before the condition: the variable is first reached by a RIGHT operand
+                q = an(entity(x, True, S.build(cond, {"x": x})))
+            elif lead == "and_true":
+                from entity_query_language import and_
+                q = an(entity(x, and_(True, S.build(cond, {"x": x}))))
+            elif lead == "pred_const":  # a predicate over constants only
+                q = an(entity(x, S.val_above(3, 1), S.build(cond, {"x": x})))
+            elif lead == "other_var":   # a conjunct over ANOTHER variable (eager list domain) first
+                y = let(Other, domain=ys)
+                q = an(entity(x, y.a > 0, S.build(cond, {"x": x})))
+            else:
+                q = an(entity(x, S.build(cond, {"x": x})))
         events = []
         data = dict(items=items, events=events)
         events.append(["BUILT", len(log)])
@@ -157,6 +170,9 @@ def shapes(tier, seed):
         out.append(dict(cond=leaf, n=n, H=H, spelling="typed"))
         out.append(dict(cond=leaf, n=n, H=H, mixed=True))
         out.append(dict(cond=leaf, n=n, H=H, mixed=True, spelling="typed"))
+    for lead in ("true", "and_true", "pred_const", "other_var"):
+        for c in (core[0], core[7], ["and", core[0], core[1]], ["or", core[1], core[2]]):
+            out.append(dict(cond=c, n=4, H=3, lead=lead))
     for l1 in core:
         for l2 in core:
             for op in ("and", "or"):
